@@ -38,6 +38,9 @@
 #endif
 /* ghost character index used by spliced loop invariants (defined by every contract source) */
 extern size_t vf_gc;
+extern size_t vf_gj;
+/* ghost equality oracle of the name look-ups: vf_match[k] <=> element k carries the searched name */
+extern _Bool vf_match[100000];
 
 /* ---- exceptions: one ghost register holding the class of the exception in flight */
 extern int vf_exc;
